@@ -133,6 +133,18 @@ static void blk_octets(void) {
 		else if (r == 1) { uint8_t b[64]; if (sm2_z256_point_is_at_infinity(&P) || sm2_z256_point_to_bytes(&P, b) != 1 || memcmp(b, exy, 64)) { snprintf(key, sizeof key, "C12:from_octets:wrong-point:len=%zu:prefix=%02x:%s", LN[li], pre, VNAME[vi]); vh_viol(key, "\"octets\":\"%s\"", vh_hex(o, LN[li])); } }
 		else if (want && vi == 0) { snprintf(key, sizeof key, "C12:from_octets:valid-rejected:len=%zu:prefix=%02x", LN[li], pre); vh_viol(key, "\"octets\":\"%s\"", vh_hex(o, LN[li])); }
 	}
+	/* the same octet strings as the subjectPublicKey BIT STRING of a SubjectPublicKeyInfo (DER and PEM) and of the bare BIT STRING reader: a key
+	   container must give back a finite point that is on the curve, or refuse */
+	{ uint8_t algid[40]; size_t alen = 0; { der_cur c = { SPKI, SPKIL }; int tag; const uint8_t *v; size_t vl; if (!der_tlv(&c, &tag, &v, &vl, NULL) || tag != 0x30) vh_harness_error("spki"); der_cur in = { v, vl }; const uint8_t *st = in.p; if (!der_tlv(&in, &tag, &v, &vl, NULL)) vh_harness_error("spki alg"); alen = (size_t)(in.p - st); memcpy(algid, st, alen); }
+	  static const size_t CL[] = { 0, 1, 2, 32, 33, 64, 65, 66 }; static const int PRE[] = { 0, 2, 3, 4, 6, 7 };
+	  for (int li = 0; li < 8; li++) for (int pi = 0; pi < 6; pi++) for (int vi = 0; vi < 2; vi++) { if (!vh_next()) continue; uint8_t o[70] = {0}; o[0] = (uint8_t)PRE[pi]; memcpy(o + 1, VAL[vi], 64); size_t ol = CL[li];
+		uint8_t bs[80], body[140], spki[160]; bs[0] = 0; memcpy(bs + 1, o, ol); size_t bl = der_put_tlv(body, 0x03, bs, ol + 1); memmove(body + alen, body, bl); memcpy(body, algid, alen); size_t sl = der_put_tlv(spki, 0x30, body, alen + bl);
+		int fin = 0; uint8_t exy[64]; /* a valid finite point encoding? */ if (PRE[pi] == 4 && ol == 65 && VVALID[vi]) { fin = 1; memcpy(exy, VAL[vi], 64); } if ((PRE[pi] == 2 || PRE[pi] == 3) && ol == 33) { BN_bin2bn(VAL[vi], 32, x); EC_POINT *Q = EC_POINT_new(sr_group()); if (BN_cmp(x, sr_p()) < 0 && EC_POINT_set_compressed_coordinates(sr_group(), Q, x, PRE[pi] & 1, sr_ctx()) == 1) { fin = 1; sr_point_to_xy(Q, exy); } EC_POINT_free(Q); ERR_clear_error(); }
+		for (int route = 0; route < 3; route++) { SM2_KEY k; memset(&k, 0, sizeof k); int r; if (route == 0) { const uint8_t *cp = spki; size_t l = sl; r = sm2_public_key_info_from_der(&k, &cp, &l); } else if (route == 1) { FILE *f = tmpfile(); pem_write(f, "PUBLIC KEY", spki, sl); rewind(f); r = sm2_public_key_info_from_pem(&k, f); fclose(f); } else { const uint8_t *cp = body + alen; size_t l = bl; r = sm2_public_key_from_der(&k, &cp, &l); }
+			static const char *RN[3] = { "sm2_public_key_info_from_der", "sm2_public_key_info_from_pem", "sm2_public_key_from_der" }; size_t kk[4] = { ol, (size_t)PRE[pi], (size_t)vi, (size_t)route }; vh_eval(vh_hash(kk, sizeof kk, 17)); char key[160];
+			if (r == 1 && !fin) { snprintf(key, sizeof key, "C12:%s:accepts:bitstring-len=%zu:prefix=%02x", RN[route], ol, PRE[pi]); vh_viol(key, "\"octets\":\"%s\",\"infinity\":%d", vh_hex(o, ol), (int)sm2_z256_point_is_at_infinity(&k.public_key)); }
+			else if (r == 1) { uint8_t b[64]; if (sm2_z256_point_is_at_infinity(&k.public_key) || sm2_z256_point_to_bytes(&k.public_key, b) != 1 || memcmp(b, exy, 64)) { snprintf(key, sizeof key, "C12:%s:wrong-point:bitstring-len=%zu:prefix=%02x", RN[route], ol, PRE[pi]); vh_viol(key, "\"octets\":\"%s\"", vh_hex(o, ol)); } }
+			else if (fin && ol == 65 && vi == 0) { snprintf(key, sizeof key, "C12:%s:valid-rejected", RN[route]); vh_viol(key, "\"octets\":\"%s\"", vh_hex(o, ol)); } } } }
 	/* compress then decompress k*G for k in 1..16, n-1 */
 	for (int k = 1; k <= 17; k++) { if (!vh_next()) continue; BN_set_word(x, k); if (k == 17) { BN_copy(x, sr_n()); BN_sub_word(x, 1); } uint8_t kb[32], xy[64], c[33], u[65], b[64]; bn_be(kb, x); sr_pubkey(kb, xy); SM2_Z256_POINT P, Q; sm2_z256_point_from_bytes(&P, xy);
 		vh_eval(vh_mix(k + 90000)); if (sm2_z256_point_to_compressed_octets(&P, c) != 1 || sm2_z256_point_from_octets(&Q, c, 33) != 1 || sm2_z256_point_to_bytes(&Q, b) != 1 || memcmp(b, xy, 64) || c[0] != (2 + (xy[63] & 1)) || memcmp(c + 1, xy, 32)) vh_viol("C12:compress-decompress", "\"k\":%d,\"xy\":\"%s\"", k, vh_hex(xy, 64));
